@@ -202,11 +202,12 @@ impl AggregateOperator for PreAggAdapter {
                     .iter()
                     .filter(|col| output_column_set.contains(*col));
                 columns.extend(filtered_previous_columns.cloned());
-                for column in output_column_set {
-                    if !columns.contains(&column) {
-                        columns.push(column);
-                    }
-                }
+                let mut new_columns: Vec<String> = output_column_set
+                    .into_iter()
+                    .filter(|column| !columns.contains(column))
+                    .collect();
+                new_columns.sort();
+                columns.extend(new_columns);
 
                 self.state = Aggregate {
                     data: processed_records,
